@@ -47,6 +47,8 @@ class FS:
 
 
 class LogNameModel:
+    pytype = 'str'
+
     @staticmethod
     def op_eq(ex, o, other):
         if isinstance(other, Obj) and other.cls == 'logname':
@@ -132,8 +134,8 @@ class WFile:
     """file object opened for writing"""
     @staticmethod
     def m_write(ex, o, data):
-        n = B.b_len(ex, data) if not isinstance(data, str) else len(data)
         tgt = o.f['target']
+        n = (B.b_len(ex, data) if not isinstance(data, str) else len(data)) if isinstance(tgt, Obj) else 1
         if isinstance(tgt, Obj):
             tgt.f['size'] = tgt.f['size'] + n
             tgt.f.setdefault('records', []).append(data)
